@@ -76,6 +76,17 @@ def gen_country(rng, key, role, n, allow_portfolio, grid=True):
             'custom': custom, 'second_market': second}
 
 
+def add_cross_region_buyers(rng, z):
+    """Households of one region also buy in ANOTHER region's goods market (same currency zone): demanders with the same
+    short code ('HH') in different countries of the zone meet in one market."""
+    regs = [c for c in z['countries'] if c['role'] == 'region']
+    z['cross_buy'] = []
+    for a in regs:
+        for b_ in regs:
+            if a is not b_ and (not z['cross_buy'] or rng.random() < 0.5):
+                z['cross_buy'].append({'buyer': a['key'], 'market': b_['key'], 'share': rng.choice([0.05, 0.1, 0.125])})
+
+
 def add_bonds(rng, z, n):
     """A second interest-bearing asset (a DepositMarket with code BOND, same issuer): portfolio households then hold
     three assets - deposits, bonds and, as the residual, money."""
@@ -117,6 +128,8 @@ def gen_zone(rng, cur, kind, keys, n, ext, grid=True):
          'internal_imports': []}
     if gov['deposits'] and gov['money'] and rng.random() < 0.35:
         add_bonds(rng, z, n)
+    if kind == 'federation' and rng.random() < 0.5:
+        add_cross_region_buyers(rng, z)
     if kind == 'federation':
         regs = [c for c in countries if c['role'] == 'region']
         for c in regs:
@@ -232,6 +245,8 @@ def gen_federation_with_region_asset_markets(rng, maxtime=None, all_tobin=False,
             c['firm'] = {'form': 'fixed', 'margin': [0.1, 0.25, 0.125][i % 3]}
             c['cap'] = {'ai': [0.6, 0.5, 0.7][i % 3], 'af': [0.2, 0.3, 0.25][i % 3]}
             c['second_market'] = None
+    if not z.get('cross_buy'):
+        add_cross_region_buyers(rng, z)
     if all_tobin:
         for c in regs:
             c['hh']['portfolio'] = 'tobin'
@@ -296,6 +311,35 @@ def force_share_portfolio_with_own_lag(rng, spec):
             hh['share'] = 0.5
             hh.pop('bond_share', None)
             hh['F0'] = hh['F0'] or float(rng.randint(40, 120))
+    return True
+
+
+def force_two_foreign_suppliers(rng, spec):
+    """Zone 0's goods market gets TWO suppliers from two other currency zones (different shares); needs 3 zones + ext."""
+    if len(spec['zones']) < 3 or not spec['ext']:
+        return False
+    firsts = [[c for c in z['countries'] if c['role'] != 'central'][0] for z in spec['zones']]
+    m = firsts[0]['key']
+    spec['imports'] = [i for i in spec['imports'] if i['market'] != m]
+    spec['imports'].append({'market': m, 'supplier': firsts[1]['key'], 'mu': 0.05})
+    spec['imports'].append({'market': m, 'supplier': firsts[2]['key'], 'mu': 0.2})
+    return True
+
+
+def force_import_into_market_of_profitable_firm(rng, spec):
+    """Zone 0's first country: a single-output firm with a profit margin and capitalists, whose goods market has a second
+    supplier abroad (so the firm's own sales differ from the market total)."""
+    if len(spec['zones']) < 2 or not spec['ext']:
+        return False
+    a = [c for c in spec['zones'][0]['countries'] if c['role'] != 'central'][0]
+    b_ = [c for c in spec['zones'][1]['countries'] if c['role'] != 'central'][0]
+    if spec['zones'][0]['kind'] == 'federation':
+        return False
+    a['firm'] = {'form': 'fixed', 'margin': rng.choice([0.1, 0.2, 0.25])}
+    a['cap'] = a.get('cap') or {'ai': 0.6, 'af': 0.2}
+    a['second_market'] = None
+    spec['imports'] = [i for i in spec['imports'] if i['market'] != a['key']]
+    spec['imports'].append({'market': a['key'], 'supplier': b_['key'], 'mu': rng.choice([0.1, 0.2, 0.25])})
     return True
 
 
@@ -642,6 +686,11 @@ def _build(spec, model=None, holder=None, order_seed=None, codes=None, ckey_map=
             gov.SetEquationRightHandSide('DEM_GOOD', ' + '.join(dem_terms))
         for imp in z.get('internal_imports', []):
             add_import(b, imp, code, ckey_map)
+        for cb in z.get('cross_buy', []):
+            buyer = S[(cb['buyer'], 'HH')]
+            var = 'DEM_%s_%s' % (ckey_map.get(cb['market'], cb['market']), code(cb['market'], 'GOOD'))
+            buyer.AddVariable(var, 'Purchases in the goods market of another region', '%r * AfterTax' % (cb['share'],))
+            mod.AddCashFlowIncomeExclusion(buyer, var)
     for imp in spec['imports']:
         add_import(b, imp, code, ckey_map)
     gift_var = {}
